@@ -4,6 +4,21 @@ From Coq Require Import List ZArith Bool Arith Lia.
 From Verif Require Import Pipeline.Model Pipeline.ProofsBasic Pipeline.ProofsChain Pipeline.ProofsOrder.
 Import ListNotations.
 
+Definition rm (p : rpc) : nat := match p with RRead => 3 | RSend _ _ _ => 2 | RTest _ => 1 | RDone => 0 end.
+Definition wpm (p : wpc) : nat := match p with WSend _ => 2 | WRecv => 1 | WDone => 0 end.
+Definition wm (w : worker) : nat := 2 * length (w_in w) + wpm (w_pc w).
+Definition sm (p : spc) : nat := match p with SSend _ => 3 | SRecv => 2 | SChk _ => 1 | SDone => 0 end.
+Fixpoint wsum (l : list worker) : nat := match l with [] => 0 | w :: r => wm w + wsum r end.
+Definition mu (s : state) : nat := 3 * rm (r_pc s) + wsum (ws s) + sm (s_pc s).
+
+Lemma wsum_setw : forall l i w, i < length l -> wsum (setw i w l) + wm (getw i l) = wsum l + wm w.
+Proof.
+  unfold getw. induction l as [|x l IH]; intros [|i] w H; cbn [length] in H; try lia.
+  - cbn [setw nth wsum]. lia.
+  - cbn [setw nth wsum]. specialize (IH i w ltac:(lia)). lia.
+Qed.
+
+
 Arguments getw : simpl never.
 Arguments setw : simpl never.
 
@@ -161,5 +176,134 @@ Proof.
   intros s H. induction H as [|s l s' o Hr IH Hs].
   - intros k it _ i Hi. unfold init. cbn. apply getw_repeat. exact Hi.
   - exact (first_step l s s' o IH Hs).
+Qed.
+
+(* ================= termination after cancellation: the measure ================= *)
+Definition is_pipeline (l : label) : bool := match l with LRd _ | LWk _ _ | LSe _ => true | _ => false end.
+
+(* once the context is cancelled every step of a pipeline goroutine strictly decreases mu *)
+Lemma mu_decreases : forall l s s' o, c_and c = true -> c_recheck c = true ->
+  length (ws s) = c_n c -> cancelled s = true -> is_pipeline l = true ->
+  step c l s = Some (s', o) -> mu s' < mu s.
+Proof.
+  intros l s s' o Hand Hre HL Hc Hp H. unfold mu.
+  destruct l as [d|i d|d| |a]; try discriminate Hp; step_cases H; cbn [r_pc ws s_pc set_r_pc set_ws set_s_pc set_s_cnt set_r_pos set_rac set_oq set_cd_err set_oq_closed set_cancelled ser_exit rm sm];
+    try (match goal with Hl : loop_cond _ _ _ = true |- _ =>
+           unfold loop_cond in Hl; rewrite Hand, Hc in Hl; discriminate Hl end);
+    try (match goal with Hb : (c_recheck c && cancelled s)%bool = false |- _ => rewrite Hre, Hc in Hb; discriminate Hb end);
+    try lia.
+  all: try (match goal with |- context [wsum (setw ?i ?w (ws ?st))] =>
+      let Hs := fresh "Hs" in
+      assert (i < length (ws st)) as Hi' by
+        (rewrite HL; first [apply Nat.mod_upper_bound; lia | apply Nat.ltb_lt; assumption]);
+      pose proof (wsum_setw (ws st) i w Hi') as Hs; unfold wm in Hs; cbn [w_in w_pc w_out wpm] in Hs;
+      rewrite ?app_length in Hs; cbn [length] in Hs end).
+  all: try (match goal with Hq : w_in (getw _ _) = _ |- _ => rewrite Hq in * end).
+  all: try (match goal with Hq : w_pc (getw _ _) = _ |- _ => rewrite Hq in * end).
+  all: cbn [length wpm] in *; try lia.
+Qed.
+
+(* consumer and API steps do not touch the pipeline goroutines *)
+Lemma mu_unchanged : forall l s s' o, is_pipeline l = false -> step c l s = Some (s', o) -> mu s' = mu s.
+Proof.
+  intros l s s' o Hp H. unfold mu.
+  destruct l as [d|i d|d| |a]; try discriminate Hp; [|destruct a]; step_cases H; cbn; es_rw c s; reflexivity.
+Qed.
+
+(* progress: while the context is cancelled and some goroutine is still running, a pipeline step is enabled *)
+Lemma forallb_false_ex : forall (f : worker -> bool) l, forallb f l = false ->
+  exists i, i < length l /\ f (nth i l dummy_w) = false.
+Proof.
+  induction l as [|x l IH]; intros H; cbn in H; [discriminate H|].
+  destruct (f x) eqn:E.
+  - destruct (IH H) as (i & Hi & Hf). exists (S i). cbn. split; [lia|exact Hf].
+  - exists 0. cbn. split; [lia|exact E].
+Qed.
+
+Ltac enabled c s Hrun l :=
+  let s' := fresh "s'" in let o := fresh "o" in let E := fresh "E" in
+  exists l; destruct (step c l s) as [[s' o]|] eqn:E;
+  [exists s', o; split; reflexivity
+  |exfalso; cbn in E; rewrite ?Hrun in E; unfold lift, step_reader, step_worker, step_ser, ser_done_branch, step_cons in E].
+
+Lemma cancel_progress : forall s, reach c s -> running s = true -> cancelled s = true -> all_done s = false ->
+  exists l s' o, is_pipeline l = true /\ step c l s = Some (s', o).
+Proof.
+  intros s Hr Hrun Hc Hnd.
+  pose proof (reach_len s Hr) as HL. pose proof (reach_first s Hr) as HF.
+  unfold all_done in Hnd. rewrite Hrun in Hnd. cbn in Hnd.
+  destruct (r_pc s) as [e| |k it sel|] eqn:Er.
+  - enabled c s Hrun (LRd false). rewrite Er in E. destruct (loop_cond c _ _); discriminate E.
+  - enabled c s Hrun (LRd false). rewrite Er in E. discriminate E.
+  - destruct sel.
+    + enabled c s Hrun (LRd true). rewrite Er, Hc in E. discriminate E.
+    + assert (k mod c_n c < c_n c) as Hk by (apply Nat.mod_upper_bound; lia).
+      pose proof (HF k it Er _ Hk) as Hw.
+      enabled c s Hrun (LRd false). rewrite Er, Hw in E. cbn in E. unfold can_send in E.
+      destruct (cap c) eqn:Ec; cbn in E; discriminate E.
+  - cbn in Hnd. destruct (forallb (fun w => is_wdone (w_pc w)) (ws s)) eqn:Ew.
+    + cbn in Hnd. destruct (s_pc s) as [|p|p|] eqn:Es; try discriminate Hnd.
+      * enabled c s Hrun (LSe true). rewrite Es, Hc in E. discriminate E.
+      * enabled c s Hrun (LSe false). rewrite Es in E. destruct (c_recheck c && cancelled s)%bool; discriminate E.
+      * enabled c s Hrun (LSe true). rewrite Es, Hc in E. discriminate E.
+    + destruct (forallb_false_ex _ _ Ew) as (i & Hi & Hf). fold (getw i (ws s)) in Hf.
+      assert ((i <? c_n c) = true) as Hlt by (apply Nat.ltb_lt; lia).
+      destruct (w_pc (getw i (ws s))) as [|o|] eqn:Ep; try discriminate Hf.
+      * enabled c s Hrun (LWk i false). rewrite Hlt, Ep, Er in E.
+        destruct (w_in (getw i (ws s))); discriminate E.
+      * enabled c s Hrun (LWk i true). rewrite Hlt, Ep, Hc in E. discriminate E.
+Qed.
+
+Lemma running_mono : forall l s s' o, step c l s = Some (s', o) -> running s = true -> running s' = true.
+Proof.
+  intros l s s' o H Hr.
+  destruct l as [d|i d|d| |a]; [| | | |destruct a]; step_cases H; cbn; es_rw c s; try reflexivity; try assumption; congruence.
+Qed.
+
+(* number of pipeline-goroutine steps actually taken along a schedule *)
+Fixpoint ptaken (sched : list label) (s : state) : nat :=
+  match sched with
+  | [] => 0
+  | l :: r => match step c l s with
+              | Some (s', _) => (if is_pipeline l then 1 else 0) + ptaken r s'
+              | None => ptaken r s
+              end
+  end.
+
+(* GOROUTINES TERMINATE, part 1: from a reachable state in which the context is cancelled, along
+   ANY continuation (any interleaving with the consumer and further API calls) the pipeline
+   goroutines take at most mu s more steps *)
+Lemma steps_after_cancel_bounded : forall sched s, c_and c = true -> c_recheck c = true ->
+  reach c s -> cancelled s = true ->
+  ptaken sched s + mu (fst (run c sched s)) <= mu s.
+Proof.
+  induction sched as [|l r IH]; intros s Hand Hre Hr Hc; cbn; [lia|].
+  destruct (step c l s) as [[s' o]|] eqn:E.
+  - assert (reach c s') as Hr' by (econstructor; eassumption).
+    assert (cancelled s' = true) as Hc' by (destruct (step_flags_mono c l s s' o E) as (A & _); auto).
+    specialize (IH s' Hand Hre Hr' Hc'). destruct (run c r s') as [s'' o'] eqn:E2. cbn [fst] in *.
+    destruct (is_pipeline l) eqn:Ep.
+    + pose proof (mu_decreases l s s' o Hand Hre (reach_len s Hr) Hc Ep E). unfold mu in *. lia.
+    + pose proof (mu_unchanged l s s' o Ep E). unfold mu in *. lia.
+  - apply IH; assumption.
+Qed.
+
+(* part 2: and they can always go on until every one of them is done (so Close's wg.Wait returns) *)
+Lemma drain_exists : forall m s, mu s <= m -> c_and c = true -> c_recheck c = true ->
+  reach c s -> running s = true -> cancelled s = true ->
+  exists sched, all_done (fst (run c sched s)) = true.
+Proof.
+  induction m as [|m IH]; intros s Hm Hand Hre Hr Hrun Hc.
+  - destruct (all_done s) eqn:Ed; [exists []; exact Ed|].
+    destruct (cancel_progress s Hr Hrun Hc Ed) as (l & s' & o & Hp & Hs).
+    pose proof (mu_decreases l s s' o Hand Hre (reach_len s Hr) Hc Hp Hs). lia.
+  - destruct (all_done s) eqn:Ed; [exists []; exact Ed|].
+    destruct (cancel_progress s Hr Hrun Hc Ed) as (l & s' & o & Hp & Hs).
+    pose proof (mu_decreases l s s' o Hand Hre (reach_len s Hr) Hc Hp Hs) as Hlt.
+    destruct (IH s') as [sched Hd]; try assumption; try lia.
+    + econstructor; eassumption.
+    + eapply running_mono; eassumption.
+    + destruct (step_flags_mono c l s s' o Hs) as (A & _); auto.
+    + exists (l :: sched). cbn. rewrite Hs. destruct (run c sched s'). exact Hd.
 Qed.
 End Live.
